@@ -323,7 +323,7 @@ func genASpec(r *rng) (*aSpec, map[string]string) {
 	}
 	top := &aDecl{id: next(), kind: "rule", name: "top", start: true, prods: [][]gTerm{
 		{withCard(rule("item"), pick(r, []string{"*", "+", "?", "*!", ""})), tok("TK2", true)},
-		{listT, tok("TK2", false)},
+		{tok("TK0", false), listT, tok("TK2", false)},
 	}}
 	par = append(par, top, item)
 	s := &aSpec{}
@@ -465,7 +465,7 @@ func injectFault(r *rng, s *aSpec, k int) string {
 		is := gTerm{kind: 0, name: toks[0].name}
 		e := gTerm{kind: 3, elem: &ie, sep: &is}
 		sp := gTerm{kind: 0, name: toks[1].name}
-		rules[0].prods[1][0] = gTerm{kind: 3, elem: &e, sep: &sp}
+		rules[0].prods[1][1] = gTerm{kind: 3, elem: &e, sep: &sp}
 		return "@list entry not simple"
 	case 23:
 		modes := s.find("mode")
@@ -485,6 +485,47 @@ func injectFault(r *rng, s *aSpec, k int) string {
 		rules[0].prods[0] = append(rules[0].prods[0], gTerm{kind: 0, name: "EMPTYLIT", lit: true})
 		s.extraLits = map[string]string{"EMPTYLIT": ""}
 		return "empty literal as parser term"
+	case 26:
+		// a token that is one literal WITH a cardinality defines no alias
+		m := &aDecl{id: 9100, kind: "mode", name: "Rl"}
+		m.body = []*aDecl{{id: 9101, kind: "token", name: "RULER", alts: [][]lterm{{{re: litTerm("%").re, card: pick(r, []string{"+", "*", "?", "+?", "*?"})}}}}}
+		s.files[0] = append([]*aDecl{m}, s.files[0]...)
+		rules[0].prods[0] = append(rules[0].prods[0], gTerm{kind: 0, name: "RULERLIT", lit: true})
+		s.extraLits = map[string]string{"RULERLIT": "%"}
+		return "literal with cardinality used as alias"
+	case 27:
+		// NOT a fault: TK0 = '+' and (in another mode) PLUSES = '+'+ ; '+' is the alias of TK0 only
+		m := &aDecl{id: 9100, kind: "mode", name: "Rl"}
+		m.body = []*aDecl{{id: 9101, kind: "token", name: "PLUSES", alts: [][]lterm{{{re: litTerm(s.litOf(toks[0])).re, card: pick(r, []string{"+", "*", "?"})}}}}}
+		s.files[len(s.files)-1] = append([]*aDecl{m}, s.files[len(s.files)-1]...)
+		rules[0].prods[0] = append(rules[0].prods[0], gTerm{kind: 0, name: toks[0].name, lit: true})
+		return "well-formed: literal token next to the same literal with cardinality"
+	case 28, 29, 30, 31:
+		// @push_mode names something that exists but is not a mode
+		var n string
+		switch k {
+		case 28:
+			n = "NUM"
+		case 29:
+			n = "DIGIT"
+		case 30:
+			n = "item"
+		default:
+			if len(s.find("external")) == 0 {
+				return ""
+			}
+			n = "EXTA"
+		}
+		tgt := pick(r, append(append([]*aDecl{}, toks[:2]...), frags[0]))
+		tgt.acts = append(tgt.acts, lact{kind: "push", arg: n})
+		return "@push_mode of a " + []string{"token", "macro", "rule", "external token"}[k-28]
+	case 32:
+		// NOT a fault: @push_mode() of the default mode, and of a mode declared later / in another file
+		toks[0].acts = append(toks[0].acts, lact{kind: "push", arg: ""})
+		if ms := s.find("mode"); len(ms) > 0 {
+			toks[1].acts = append(toks[1].acts, lact{kind: "push", arg: ms[0].name})
+		}
+		return "well-formed: @push_mode of the default mode and of a declared mode"
 	case 24:
 		rules[1].name = "TK0"
 		for _, d := range rules {
@@ -499,6 +540,16 @@ func injectFault(r *rng, s *aSpec, k int) string {
 		return "rule and token share a name"
 	}
 	return ""
+}
+
+const c17MaxFault = 32
+
+func (s *aSpec) litOf(d *aDecl) string {
+	var sb strings.Builder
+	for _, cp := range d.alts[0][0].re.lit {
+		sb.WriteRune(rune(cp))
+	}
+	return sb.String()
 }
 
 var diagPatterns = []struct {
@@ -570,7 +621,7 @@ func parseDiags(diag string, lineOf map[string]int) (out [][2]int, unknown []str
 
 func checkC17(c *checkCtx) {
 	c.level = "proof"
-	c.cov.Rule = "well-formed specifications (tokens with literal aliases, macros, fragments, modes with push/pop, @external, sugar and @list in parser rules, one or two files) and 25 kinds of single-fault variants of them (fault in any section, mode or file); lox's verdict, every diagnostic's kind and the declaration its position lies in are compared with the Gallina mirror Analyze.analyze, and the verdict with the property's own predicate well_formed; non-trivial = a faulty variant, or a two-file / moded specification"
+	c.cov.Rule = "well-formed specifications (tokens with literal aliases, macros, fragments, modes with push/pop, @external, sugar and @list in parser rules, one or two files) and 31 kinds of single-fault variants (plus two well-formed look-alikes: a literal token beside the same literal with a cardinality; @push_mode of the default or a later-declared mode) of them (fault in any section, mode or file); lox's verdict, every diagnostic's kind and the declaration its position lies in are compared with the Gallina mirror Analyze.analyze, and the verdict with the property's own predicate well_formed; non-trivial = a faulty variant, or a two-file / moded specification"
 	c.assume = []string{"Gen/Analyze.v mirrors the passes of internal/ast by hand and is tied to lox by this comparison (sampled specifications); the theorems (analyze_sound_for_wf, analyze_accepts_iff, reject_points_into_fault) hold for all abstract specifications"}
 	c.coqObligations()
 	n := 8
@@ -586,7 +637,7 @@ func checkC17(c *checkCtx) {
 	}
 	var metas []*meta
 	for i := 0; i < n; i++ {
-		for k := -1; k <= 25; k++ {
+		for k := -1; k <= c17MaxFault; k++ {
 			r2 := newRng(c.seed*1000 + int64(i))
 			sp, lits := genASpec(r2)
 			if k >= 0 {
